@@ -9,7 +9,7 @@ RULE = ("argument sequences (1-8) of key=value / bare key / key= / =value / malf
         "and indices over an overlapping address space; values in every syntax parse.Value accepts (numbers, bools, quoted strings, "
         "lists, objects, top-level comma lists); option sets with and without PathSep and each merge policy; autoBool on/off. Oracle: "
         "Config() = fold of Merge over the arguments' configs with the flag's options up to the first failing argument, Error() set "
-        "exactly when one failed, and Error() read after every Set never changes once it is non-nil; the collector keeps the options. Non-trivial: two arguments address overlapping settings or one is "
+        "exactly when one failed, and Error() read after every Set never changes once it is non-nil; the collector keeps the options. A fifth of the sequences address a top-level list (keys whose first segment is an index). Non-trivial: two arguments address overlapping settings or one is "
         "malformed. Distinct by (policy, PathSep, multiset of argument kinds, error position).")
 TRUSTED_BASE = ["Lean 4 kernel", "Model/Flag.lean transcribes flag/util.go, flag/value.go, cfgutil.go; Parse/Normalize/Merge models", "correspondence harness"]
 ASSUMPTIONS = ["file flags (NewFlagFiles) share the collector and are covered through it, their loaders are the C18 front-ends"]
